@@ -572,7 +572,20 @@ func genHostileName(rt *rapid.T) string {
 		return " from " + a + " port " + genPort(rt, l+".p")
 	}
 	var s string
-	switch rapid.IntRange(0, 9).Draw(rt, "nk") {
+	switch rapid.IntRange(0, 10).Draw(rt, "nk") {
+	case 10:
+		// a whole sshd message of another form as the "name"
+		switch rapid.IntRange(0, 3).Draw(rt, "emb") {
+		case 0:
+			s = "Accepted password for root from 10.0.0.1 port 22 ssh2"
+		case 1:
+			s = "Accepted publickey for root from 10.0.0.1 port 22 ssh2: RSA SHA256:abcd"
+		case 2:
+			s = "Accepted publickey for root from 10.0.0.1 port 22 ssh2: RSA-CERT SHA256:abcd ID evil (serial 1) CA RSA SHA256:ca"
+		default:
+			m := genSshdMsg(rt)
+			s = m.Msg
+		}
 	case 0:
 		s = pick(rt, "c", []string{"", " ", "  ", "a b", " a", "a ", "from", "port", " from ", " port ", "ssh2", " ssh2", "invalid user x",
 			"x from 6.6.6.6 port 1", "x from 6.6.6.6 port 1 ssh2", "root from ::1 port 22", "a  b", "\t", "x from y", "x port 9"})
